@@ -411,6 +411,9 @@ func (s *Scope) Provide(constructor interface{}, opts ...ProvideOption) error {
 		return newErrInvalidInput(
 			fmt.Sprintf("must provide constructor function, got %v (type %v)", constructor, ctype), nil)
 	}
+	if reflect.ValueOf(constructor).IsNil() {
+		return newErrInvalidInput(fmt.Sprintf("can't provide a nil function (type %v)", ctype), nil)
+	}
 
 	var options provideOptions
 	for _, o := range opts {
